@@ -1300,6 +1300,16 @@ func (ip *Interp) call(st *istate, call *ast.CallExpr) []IVal {
 	// conversion
 	if tv, ok := info.Types[call.Fun]; ok && tv.IsType() && len(call.Args) == 1 {
 		v := ip.eval(st, call.Args[0])
+		isFloat := func(t types.Type) bool {
+			if t == nil {
+				return false
+			}
+			b, ok := t.Underlying().(*types.Basic)
+			return ok && b.Info()&types.IsFloat != 0
+		}
+		if isFloat(info.TypeOf(call.Args[0])) != isFloat(tv.Type) {
+			return []IVal{{K: 'u'}} // numeric conversion between float and integer: not a bit cast
+		}
 		if bt := basicInt(tv.Type); bt != nil {
 			if v.K == 'i' {
 				return []IVal{{K: 'i', I: wrap(v.I, bt, ip.cf.Pkg.TypesSizes), Typ: bt}}
@@ -1464,6 +1474,16 @@ func (ip *Interp) call(st *istate, call *ast.CallExpr) []IVal {
 	switch q {
 	case "errors.New", "fmt.Errorf":
 		return []IVal{{K: 'e', Lib: true}}
+	case "math.Float32bits", "math.Float32frombits", "math.Float64bits", "math.Float64frombits":
+		// floats are carried as their bit pattern
+		if len(args) == 1 && args[0].K == 'i' {
+			v := args[0]
+			v.Typ, v.Dyn = nil, nil
+			if q == "math.Float32bits" || q == "math.Float32frombits" {
+				v.I &= 0xffffffff
+			}
+			return []IVal{v}
+		}
 	}
 	out := make([]IVal, nres)
 	env := false
